@@ -14,6 +14,7 @@ value lies in the range the Coq theorems assume (signature `float-input-out-of-r
 """
 import json
 import struct
+import zlib
 
 from harness.framework import Check, classify_exc
 
@@ -116,6 +117,49 @@ def parse_remb(data):
     return mant << exp, exp, [struct.unpack_from("!L", data, 8 + 4 * i)[0] for i in range(n)]
 
 
+def compress_remb(remb):
+    """[0, bytes] -> [0, first 8 bytes, crc32 of all bytes]; [code] unchanged (keeps big cases small)"""
+    if remb[0] != 0:
+        return remb
+    b = bytes(remb[1])
+    return [0, list(b[:8]), zlib.crc32(b)]
+
+
+def compress_outs(outs):
+    """per-call outputs [lat] | [lat, e, ssrcs, remb] -> ([lat] | [lat, e, index, remb'], table of distinct SSRC lists)"""
+    table = []
+    index = {}
+    res = []
+    for o in outs:
+        if len(o) == 1:
+            res.append(o)
+            continue
+        lat, e, ss, remb = o
+        k = tuple(ss)
+        if k not in index:
+            index[k] = len(table)
+            table.append(list(ss))
+        res.append([lat, e, index[k], compress_remb(remb)])
+    return res, table
+
+
+def check_remb(e, ss, remb):
+    """the compressed REMB of estimate e lists exactly ss and decodes to v <= e < v + 2^exp"""
+    if remb[0] != 0:
+        return "pack_remb_fci raised"
+    head = bytes(remb[1])
+    if len(head) != 8 or head[:4] != b"REMB" or head[4] != len(ss):
+        return f"bad REMB header {list(head)}"
+    exp = head[5] >> 2
+    mant = ((head[5] & 3) << 16) | (head[6] << 8) | head[7]
+    v = mant << exp
+    if v > e or e - v >= (1 << exp):
+        return f"REMB decodes to {v}"
+    if zlib.crc32(head + b"".join(struct.pack("!L", x) for x in ss)) != remb[2]:
+        return "REMB SSRC list differs from the estimate's"
+    return None
+
+
 # ------------------------------------------------------------------ generators
 def abs_send(ms_times_8):
     """abs-send-time (24 bit, 6.18 fixed point seconds) of a send time given in 1/8 ms"""
@@ -195,18 +239,30 @@ def gen_rbe(rng, big):
     base = rng.choice([0, 10, 50, 1000000])
     delay8 = 0
     last_arrival = None
-    nss = 300 if big else rng.choice([1, 1, 1, 2, 3, 3, 40, 270])
+    nss = rng.choice([270, 300]) if big else rng.choice([1, 1, 1, 2, 3, 3, 40])
     ssrc_pool = [0, 1, 0xFFFFFFFF][:nss] + [rng.randrange(2 ** 32) for _ in range(max(0, nss - 3))]
     rng.shuffle(ssrc_pool)
     many = nss > 3 and (nss > 200 or rng.random() < 0.7)
     next_new = 0
-    nseg = rng.randrange(3, 9 if big else 7)
+    nseg = rng.randrange(4, 8) if big else rng.randrange(3, 7)
+    prev_kind = None
     for seg in range(nseg):
         kind = rng.choice(["steady", "steady", "ramp", "ramp", "drain", "burst", "idle", "zero", "tiny", "jitter"])
+        if prev_kind == "ramp" and delay8 > 0 and rng.random() < 0.6:
+            kind = "drain"           # the queue built by the ramp empties: under-use
+        prev_kind = kind
         if seg == 0 and rng.random() < 0.7:
             kind = "steady"
+        prev_kind = kind
+        if big:
+            # many SSRCs make every estimate (and its REMB) large: keep estimates to the 500 ms cadence
+            # except for one short over-use at the end
+            kind = "ramp" if seg == nseg - 1 else rng.choice(["steady", "steady", "jitter", "burst", "idle"])
+            prev_kind = kind
         interval8 = rng.choice([8, 20, 40, 80, 80, 160, 264, 400])
-        dur = rng.randrange(200, 3000 if not big else 6000) * 8
+        dur = rng.randrange(200, 3000) * 8
+        if big and kind == "ramp":
+            dur = rng.randrange(100, 400) * 8
         sizes = rng.choice([[1200], [1200, 1200, 300], [100, 200, 1500], [0], [0, 1, 2], [2], [1500],
                             [rng.randrange(0, 1501)]])
         slope = 0
@@ -310,7 +366,7 @@ class C15(Check):
         if k < 5:
             return gen_aimd(rng)
         if k < 9:
-            return gen_rbe(rng, big=(i % 20 == 8))
+            return gen_rbe(rng, big=(i % 30 == 8))
         return gen_remb(rng)
 
     def extra_search_cases(self, rng, n):
@@ -433,7 +489,8 @@ class C15(Check):
                      aimd_state(rc), [] if est.last_update_ms is None else [est.last_update_ms],
                      [[k, v] for k, v in est.ssrcs.items()]]
         rec = [exc_kind, [list(c) for c in rc.calls], per_call]
-        return [status, outs, state], rec
+        outs, table = compress_outs(outs)
+        return [status, outs, state, table], rec
 
     def _impl_remb(self, case):
         from aiortc import rtp
@@ -488,6 +545,9 @@ class C15(Check):
             out = [out[0], out[1], []]
         if kind == 0:
             return out
+        if kind == 2:
+            outs, table = compress_outs(out[1])
+            out = [out[0], outs, out[2], table]
         return out + [self._rec.get(json.dumps(case))]
 
     # ------------------------------------------------------------ oracle (the property, on the implementation)
@@ -598,7 +658,7 @@ class C15(Check):
         return self._check_estimates(calls, lambda i: calls_in[i][0], "AimdRateControl")
 
     def _oracle_rbe(self, case, out):
-        status, outs, state, rec = out
+        status, outs, state, table, rec = out
         arrivals = case[1]
         if not self._mono([a[0] for a in arrivals]) or any(a[2] < 0 for a in arrivals):
             return None
@@ -634,16 +694,17 @@ class C15(Check):
             elif len(o) > 1:
                 return ("estimate-without-update", f"arrival {i} returned {o} without a rate-control update")
             if len(o) > 1:
-                lat, e, ss, remb = o
+                lat, e, si, remb = o
+                ss = table[si]
                 want_ss = seen[-255:]
                 if ss != want_ss:
                     return ("remb-ssrc-list", f"arrival {i}: estimate lists {len(ss)} SSRCs {ss[:5]}.., seen so far "
                                               f"{len(seen)}: {seen[:5]}..")
                 if remb[0] != 0:
                     return ("remb-not-encodable", f"arrival {i}: pack_remb_fci({e}, {len(ss)} SSRCs) raised")
-                p = parse_remb(bytes(remb[1]))
-                if p is None or p[2] != ss or p[0] > e or e - p[0] >= (1 << p[1]):
-                    return ("remb-wrong", f"arrival {i}: REMB for {e} decodes to {p and p[0]}")
+                bad = check_remb(e, ss, remb)
+                if bad is not None:
+                    return ("remb-wrong", f"arrival {i}: REMB for {e}: {bad}")
         return self._check_estimates(calls, lambda i: verdicts[i], "RemoteBitrateEstimator")
 
     def _oracle_remb(self, case, out):
@@ -676,7 +737,7 @@ class C15(Check):
             return False
         if kind == 2:
             n_est = sum(1 for o in out[1] if len(o) > 1)
-            over = any(p[0] == 2 for p in out[3][2])
+            over = any(p[0] == 2 for p in out[4][2])
             gaps = any(b[0] - a[0] >= 1000 for a, b in zip(case[1], case[1][1:]))
             return n_est >= 2 and (over or gaps)
         return out[0][0] == 0 and case[1] > 0x3FFFF
@@ -699,7 +760,7 @@ class C15(Check):
                 if o[0][0] != 0:
                     d["remb_unencodable_inputs"] += 1
             elif o != [-3]:
-                rec = o[3]
+                rec = o[-1]
                 if k == 1:
                     d["aimd_cases"] += 1
                     d["aimd_updates"] += len(c[1])
